@@ -358,6 +358,80 @@ func scWindow(r *gen.Rand, name string) Case {
 	return b.done()
 }
 
+// scBoundary: every expiry rule at its boundary (deterministic): Expire = height / height+1,
+// Expire = block time / block time+1, TxHeight one outside / exactly at both ends of the window,
+// and a TxHeight transaction replayed at the far end of its window (still in the cache).
+func scBoundary(r *gen.Rand, name string) Case {
+	const hi, lo = 2, 1
+	b := newCase(name, r.Bool(), hi, lo)
+	tag := 1
+	ws := b.trunk(r, 0, 4, &tag)
+	tip := ws[len(ws)-1] // height 4, time 4
+	mk := func(exp string) int {
+		t := b.tx(tag, 0, true, exp, true, true, true, "r", 7)
+		tag++
+		return t
+	}
+	h := 5
+	bad := []string{
+		fmt.Sprintf("h%d", h),      // Expire = height: expired
+		fmt.Sprintf("x%d", h+lo+1), // window starts above this height
+		fmt.Sprintf("x%d", h-hi-1), // window ended below this height
+	}
+	for j, exp := range bad {
+		o := opt()
+		o.salt = 1 + j
+		good := b.plain(tag)
+		tag++
+		w := b.blk(tip, []int{good, mk(exp)}, o)
+		b.op("produce %d", w)
+		b.deliver(w, "p", bc(r))
+	}
+	// Expire = block time (time of this sibling: 4 + 1 + salt)
+	o := opt()
+	o.salt = 4
+	tExp := mk(fmt.Sprintf("t%d", 4+1+4))
+	good := b.plain(tag)
+	tag++
+	w := b.blk(tip, []int{tExp, good}, o)
+	b.op("produce %d", w)
+	b.deliver(w, "p", bc(r))
+	// the valid block of height 5 (time 5): all four rules one step inside
+	xEarly := mk(fmt.Sprintf("x%d", h+lo)) // packable from this height on (until h+lo+hi)
+	xLate := mk(fmt.Sprintf("x%d", h-hi))  // this height is its last
+	hOk := mk(fmt.Sprintf("h%d", h+1))
+	tOk := mk("t6")
+	v5 := b.blk(tip, []int{hOk, tOk, xEarly, xLate}, opt())
+	b.op("produce %d", v5)
+	b.deliver(v5, "p", bc(r))
+	b.op("chain")
+	// heights 6, 7 plain; replays of xEarly at every height up to the end of its window (8) and beyond
+	tip = v5
+	for hh := 6; hh <= 9; hh++ {
+		o := opt()
+		o.salt = 1
+		g1 := b.plain(tag)
+		tag++
+		rp := b.blk(tip, []int{xEarly, g1}, o)
+		b.op("produce %d", rp)
+		b.deliver(rp, "p", bc(r))
+		o2 := opt()
+		o2.salt = 2
+		g2 := b.plain(tag)
+		tag++
+		rl := b.blk(tip, []int{g2, xLate}, o2)
+		b.deliver(rl, "p", bc(r))
+		g3 := b.plain(tag)
+		tag++
+		nx := b.blk(tip, []int{g3}, opt())
+		b.deliver(nx, "p", bc(r))
+		tip = nx
+	}
+	b.op("scan")
+	b.observe()
+	return b.done()
+}
+
 // GenC28 is the case generator of h_c28.
 func GenC28(seed uint64) []Case {
 	r := gen.New(seed*0x9e37 + 28)
@@ -366,6 +440,7 @@ func GenC28(seed uint64) []Case {
 	cs = append(cs, scS28(r, "s28-victim-key1", false, false))
 	cs = append(cs, scS28(r, "s28-extra-bad", true, true))
 	cs = append(cs, scPoolHonest(r, "pool-honest"))
+	cs = append(cs, scBoundary(r, "boundary"))
 	for i := 0; i < gen.Scale(6, 240); i++ {
 		cs = append(cs, scLinear(r, fmt.Sprintf("linear%d", i), 3+r.Intn(gen.Scale(5, 10))))
 	}
